@@ -84,6 +84,17 @@ func (c11) Gen(seed int64, tier string, avoid []string) *Plan {
 		t := at()
 		if chance(r, 300) {
 			t = end + 1000
+		} else if chance(r, 400) {
+			// Close while an RTCP packet is being read (feedback still inside a member's pipeline)
+			var cs []int64
+			for _, o := range ops {
+				if o.K == "c" {
+					cs = append(cs, o.AtUs)
+				}
+			}
+			if len(cs) > 0 {
+				t = pick(r, cs...)
+			}
 		}
 		ops = append(ops, RigOp{K: "close", AtUs: t})
 		// a second Close overlapping the first, on chains whose members all document an idempotent Close
